@@ -199,6 +199,44 @@ def build():
     REJ = {"AssertionError": True}
     PARAM = OneOf(*RANGES)
 
+    # ---- the *_or_token wrapper forwards everything to the wrapped validator
+    C.globals["RuntimeToken"] = VFn("model", model=lambda I, a, k: VOpaque("RuntimeToken", z3.Const(
+        I.fresh_name("token"), usort("RuntimeToken"))))
+
+    def call_wrapper(I, env=None):
+        """environment step: the validator table calls the returned wrapper with a non-token item, the failure path and
+        the range parameter of the spec entry"""
+        w = I.force(I.result)
+        if w.tag != "fn":
+            return
+        item = VInt(z3.Int("wrapped_item"))
+        vfi = VOpaque("ValidationPath", z3.Const("wrapped_vfi", usort("ValidationPath")))
+        prm = VStr(z3.String("wrapped_param"))
+        I.__dict__["c12_wrapper_args"] = (item, vfi, prm)
+        I.call(w, [item, vfi, prm], {})
+    C.helpers["on_opaque_call"] = C.helpers.get("on_opaque_call") or (lambda I, fn, a, k: NONE)
+
+    def wrapper_forwards(I, func):
+        cbs = [e for e in I.cur_trace() if e.name == "callback"]
+        if len(cbs) != 1 or "c12_wrapper_args" not in I.__dict__:
+            return VBool(False)
+        item, vfi, prm = I.c12_wrapper_args
+        e = cbs[0]
+        args = list(e.args["args"])
+        kw = e.args["kwargs"]
+        if "param" in kw:
+            args.append(kw["param"])
+        if len(args) != 3:
+            return VBool(False)
+        return VBool(z3.And(I.eq(e.args["fn"], func), I.eq(args[0], item), I.eq(args[1], vfi), I.eq(args[2], prm)))
+    C.helpers["wrapper_forwards"] = wrapper_forwards
+    C.trace_helpers = set(getattr(C, "trace_helpers", ())) | {"wrapper_forwards"}
+    C.fn("ConfigValidator._validate_type_or_token", params=dict(func=Fn), result=Fn,
+         ensures=[("TK1: the *_or_token wrapper hands a non-token item to the wrapped validator with ALL its arguments - "
+                   "the (min,max) range parameter included - so int_or_token(0,10) enforces the range like int(0,10)",
+                   "wrapper_forwards(func)")],
+         modifies=[], raises={}, allow_decorators=["staticmethod"], epilogue=call_wrapper, no_inv=True)
+
     # ---- unknown settings are rejected wherever they stand in the section
     C.namedtuple(CV, "ValidationPath")
     NK = common.bound(2, 3)
@@ -359,3 +397,58 @@ def build():
              "the finite sweep checks that set every run")
     C.known_classes = ["sweep"]
     return C
+
+
+SHOW = "mpf/assets/show.py"
+
+
+def show_token_set():
+    """deferred validation of show tokens: a request whose token value is rejected leaves nothing behind - the
+    half-processed steps (still holding the raw, unvalidated token) are never cached for the next identical request"""
+    C = ContractSet("C12t", "rejected show tokens leave no cached steps")
+    C.strings = False
+    C.cls("Show", file=SHOW, fields=dict(
+        tokens=Init(lambda I, n: I.new_set([VStr("fade_time")], n)), _step_cache=MapS(Int, Opaque("Steps")),
+        show_steps=Opaque("Steps"),
+        machine=ObjS("MachineController", show_controller=ObjS("ShowControllerI",
+                                                               show_players=Init(lambda I, n: I.new_dict((), n))))))
+    C.cls("ShowControllerI", fields={})
+
+    def steps(I, env, a, k):
+        return I.new_list([], I.fresh_name("copied_steps"))
+    C.ext("Show.get_show_steps", model=steps, trusted_reason="Show.get_show_steps: a deep copy of the loaded steps (here: "
+                                                             "no step contents; the replacement helpers are abstract)")
+
+    def replace(I, env, a, k):
+        common.emit(I, "replace")
+        if I.ctx.fork(2) == 1:
+            I.raise_("AssertionError", "invalid token value")
+        return a[0]
+    for m_ in ("_replace_token_values", "_replace_token_keys"):
+        C.ext("Show." + m_, model=replace,
+              trusted_reason="token replacement: calls the RuntimeToken's validator on the value - returns, or raises when "
+                             "the value is rejected (validators: C12 main set)")
+    C.globals["hash"] = VFn("model", model=lambda I, a, k: VInt(z3.Int(I.fresh_name("token_hash"))))
+    C.globals["str"] = VFn("model", model=lambda I, a, k: VStr(z3.String(I.fresh_name("token_repr"))))
+
+    def cache_unchanged(I):
+        this = I.frames[0].env["self"].ref
+        new = I.container(I.force(I.read_field(this, "_step_cache")).ref)
+        old = I.container(I.force(I.read_field(this, "_step_cache", heap=I.old_heap)).ref, heap=I.old_heap)
+        k = z3.Int("k!cache")
+        return VBool(z3.ForAll([k], z3.And(z3.Select(new.dom, k) == z3.Select(old.dom, k),
+                                           z3.Implies(z3.Select(old.dom, k), z3.Select(new.arr, k) == z3.Select(old.arr, k)))))
+    C.helpers["cache_unchanged"] = cache_unchanged
+    C.fn("Show.get_show_steps_with_token",
+         params=dict(show_tokens=Init(lambda I, n: I.new_dict((("fade_time", VStr(z3.String(n + "[fade_time]"))),), n))),
+         loops={0: LoopSpec(invariant=[], unroll=True), 1: LoopSpec(invariant=[], unroll=True)},
+         raises={"AssertionError": True},
+         ensures_exc=[("SK1: a request whose token value is rejected caches NOTHING: the next identical request is "
+                       "validated (and rejected) again instead of being served half-processed steps",
+                       "cache_unchanged()")],
+         modifies=["self._step_cache"], skip_frame=True)
+    return C
+
+
+def build_extra():
+    return [show_token_set()]
